@@ -6,16 +6,6 @@ use crate::verif_spec::*;
 #[cfg(target_arch = "x86_64")]
 use core::arch::x86_64::*;
 
-unsafe fn model_intrinsic(a: __m256i, b: __m256i) -> __m256i {
-    // Intel SDM VPSHUFB: per 128-bit lane
-    let a: [u8; 32] = core::mem::transmute(a);
-    let b: [u8; 32] = core::mem::transmute(b);
-    let mut r = [0u8; 32];
-    let mut i = 0;
-    while i < 32 { let lane = i & 16; r[i] = if b[i] & 0x80 != 0 { 0 } else { a[lane + (b[i] & 15) as usize] }; i += 1; }
-    core::mem::transmute(r)
-}
-
 fn ref_byte4(b: &[u32], q1: u32, q2: u32, q3: u32) -> u8 {
     ref_dibit_class(b[0], q1, q2, q3) | ref_dibit_class(b[1], q1, q2, q3) << 2 | ref_dibit_class(b[2], q1, q2, q3) << 4 | ref_dibit_class(b[3], q1, q2, q3) << 6
 }
@@ -27,7 +17,7 @@ unsafe fn model_sub(buckets: &[u32], q1: u32, q2: u32, q3: u32) -> (u8, u8) {
 // @ob id=agg.x86_avx2.sub_aggregation.eq_ref props=C07,C01,C17 rows=simd,simd-unsafe quick=simd kind=HC+stub fn=generate::bucket_aggregation::x86_avx2::sub_aggregation domain="all 8 buckets x all ordered quartiles (_mm256_shuffle_epi8 by its SDM model)" replay=native
 #[kani::proof]
 #[kani::unwind(34)]
-#[kani::stub(core::arch::x86_64::_mm256_shuffle_epi8, model_intrinsic)]
+#[kani::stub(core::arch::x86_64::_mm256_shuffle_epi8, verif_support::x86_shuffle::mm256_shuffle_epi8)]
 fn ob_sub_aggregation() {
     let b: [u32; 8] = kani::any();
     let (q1, q2, q3): (u32, u32, u32) = kani::any();
